@@ -157,6 +157,7 @@ TLC_JAVA = ["java", "-XX:+UseParallelGC", "-Xss64m", "-cp",
 
 
 SHARD = int(os.environ.get("VERIF_SHARD", "100000"))
+SHARD_BYTES = 64 << 20
 
 
 def tlc(module, cfg, env=None, workers=None, timeout=900, extra=(), java_opts=()):
@@ -170,13 +171,16 @@ def tlc(module, cfg, env=None, workers=None, timeout=900, extra=(), java_opts=()
     if key and env[key].endswith((".ndjson", ".rel")) and os.path.getsize(env[key]) > 1 << 20:
         with open(env[key]) as f:
             lines = f.readlines()
-        if len(lines) > SHARD * 1.3:
+        # shards of at most SHARD records and about SHARD_BYTES bytes
+        size = os.path.getsize(env[key])
+        per = SHARD if size <= SHARD_BYTES else max(1, min(SHARD, int(len(lines) * SHARD_BYTES / size)))
+        if len(lines) > per * 1.3:
             outs = []
             total = {"wall_s": 0.0, "generated": 0, "distinct": 0, "depth": 0, "ok": True, "rc": 0, "shards": 0}
-            for i in range(0, len(lines), SHARD):
-                part = os.path.join(cache_dir("tmp"), "shard-%d-%d.ndjson" % (os.getpid(), i // SHARD))
+            for i in range(0, len(lines), per):
+                part = os.path.join(cache_dir("tmp"), "shard-%d-%d.ndjson" % (os.getpid(), i // per))
                 with open(part, "w") as f:
-                    f.writelines(lines[i:i + SHARD])
+                    f.writelines(lines[i:i + per])
                 try:
                     out, st = _tlc_once(module, cfg, dict(env, **{key: part}), workers, timeout, extra, java_opts)
                 finally:
